@@ -54,9 +54,9 @@ def lock_stages(profile, quick_cases, thorough_cases, thorough_r10=None):
            "engine": "same generators against the library built without CPP_UTILITY_HAS_SPINLOCK_HINT (bare spin loops) and CPP_UTILITY_SPINLOCK_RETRY_NUM=3"}]
     t += [{"variant": "lock_r1", "binary": "lock_harness", "profile": profile, "sweep": True, "extra": [], "cases_per_worker": 0, "max_seconds": 900,
            "engine": "bounded sweep: catalogue of two-thread one-transaction programs x ALL schedules with <= 2 step-level preemptions (complete for that sub-space)"},
-          {"variant": "lock_r1", "binary": "lock_harness", "profile": profile, "sweep": True, "extra": ["--three"], "cases_per_worker": 0, "max_seconds": 420,
+          {"variant": "lock_r1", "binary": "lock_harness", "profile": profile, "sweep": True, "extra": ["--three"], "cases_per_worker": 0, "max_seconds": 300,
            "engine": "bounded sweep: three-thread programs over {S, SIX, X, SIX->X, X->SIX, X->SIX->X} x ALL schedules with <= 2 preemptions"},
-          {"variant": "lock_r1", "binary": "lock_harness", "profile": profile, "sweep": True, "extra": ["--four"], "cases_per_worker": 0, "max_seconds": 420,
+          {"variant": "lock_r1", "binary": "lock_harness", "profile": profile, "sweep": True, "extra": ["--four"], "cases_per_worker": 0, "max_seconds": 780,
            "engine": "focus sweep: four threads, thread 0 runs X / SIX->X / X->SIX, the others one S / SIX / X transaction each; ALL schedules in which only "
                      "thread 0 is switched out, <= 2 times (others ready, or parked until named), and 3 times when the last two switches are <= 3 steps apart (parked)"}]
     return {"quick": q, "thorough": t}
